@@ -97,6 +97,9 @@ func checkC06(c *Check) {
 	sites := c.P.callSites(func(n string) bool { return n == "golang.org/x/crypto/ocsp.ParseResponseForCert" })
 	if len(sites) == 1 {
 		H := c.P.abbrev(sites[0].Fn.Obj.FullName())
+		if h2 := ocspExchangeHelper(c); h2 != nil {
+			H = c.P.abbrev(h2.Obj.FullName())
+		}
 		if spg := c.pgOfNI(ocspRoot, H); spg != nil {
 			xerr := H + "(p0, p1, p2, re(p1.OCSPServer), p3)#1"
 			inf := AnyOf(A("+TypeIs("+xerr+", ncg/revocation/internal/ocsp.RevokedError)"), A("+TypeIs("+xerr+", ncg/revocation/internal/ocsp.NoServerError)"))
